@@ -788,14 +788,14 @@ Proof.
     intro H. injection H as <-. eapply timer_inv; eauto.
 Qed.
 
-Lemma in_text_inv s e tx s' :
-  Inv s -> in_text input s e tx = Done s' -> Inv s'.
+Lemma in_text_inv c s e tx s' :
+  Inv s -> in_text input c s e tx = Done s' -> Inv s'.
 Proof.
   intros I. unfold in_text.
   assert (C : forall sp,
     (if negb (dm_eqb (a_define s) DMText) then Panic site_nontext_in_text
      else match byte_slice input sp with
-          | Some sl => Done (set_block s (Some (BText (tx ++ sl))))
+          | Some sl => Done (set_block s (Some (BText (tx ++ comp_src c sl))))
           | None => Panic site_in_text_slice
           end) = Done s' -> Inv s').
   { intro sp. destruct (negb _); [discriminate|]. destruct (byte_slice input sp); [|discriminate].
